@@ -1308,3 +1308,82 @@ Qed.
 Lemma recv_all_roundtrip m fs : Forall (fun f => blen f <= m /\ blen f < 2 ^ 64) fs ->
   rv_frames (recv_all (Some m) (frames_of fs)) = fs /\ rv_status (recv_all (Some m) (frames_of fs)) = SEnd.
 Proof. intros W. unfold recv_all. apply (recv_frames_roundtrip m fs _ W). lia. Qed.
+
+(* ================================================================== message-based multistream *)
+(* decode_multistream_message: what is sliced out of the payload lies inside it, and the rest is
+   strictly shorter (so the loops over a payload terminate) *)
+Lemma webrtc_decode1_spec data r rest : webrtc_decode1 data = Some (r, rest) ->
+  exists l tail, uvi_dec data = Some (l, tail) /\ l <= len tail /\
+    r = decode_msg (firstn (N.to_nat l) tail) /\ rest = skipn (N.to_nat l) tail /\
+    (length rest < length data)%nat /\ (length (firstn (N.to_nat l) tail) < length data)%nat.
+Proof.
+  unfold webrtc_decode1. destruct (uvi_dec data) as [[l tail]|] eqn:U; [|discriminate].
+  destruct (len tail <? l) eqn:E; [discriminate|]. intros [= <- <-].
+  exists l, tail. pose proof (uvi_dec_f_shorter _ _ _ _ _ _ U) as S.
+  repeat split; try reflexivity; [lia| |].
+  - pose proof (skipn_length_le (N.to_nat l) tail). lia.
+  - rewrite firstn_length. lia.
+Qed.
+
+(* a declared length beyond what is left is refused, whatever its size (there is no offset
+   arithmetic in the comparison, so lengths next to 2^64 are refused like any other) *)
+Lemma webrtc_decode1_truncated data l tail :
+  uvi_dec data = Some (l, tail) -> len tail < l -> webrtc_decode1 data = None.
+Proof. intros U H. unfold webrtc_decode1. rewrite U. destruct (len tail <? l) eqn:E; [reflexivity|lia]. Qed.
+
+Lemma webrtc_dialer_fuel f1 : forall f2 proto w rem,
+  (length rem < f1)%nat -> (length rem < f2)%nat ->
+  webrtc_dialer_register f1 proto w rem = webrtc_dialer_register f2 proto w rem.
+Proof.
+  induction f1 as [|f1 IH]; intros f2 proto w rem L1 L2; [lia|].
+  destruct f2 as [|f2]; [lia|]. cbn [webrtc_dialer_register].
+  destruct rem as [|x rem0]; [reflexivity|]. set (rem := x :: rem0) in *.
+  destruct (webrtc_decode1 rem) as [[r rest]|] eqn:D; [|reflexivity].
+  destruct (webrtc_decode1_spec _ _ _ D) as (_ & _ & _ & _ & _ & _ & S & _).
+  destruct w; [reflexivity|]. destruct r as [m|e]; [|reflexivity].
+  destruct m; try reflexivity. apply IH; lia.
+Qed.
+
+Lemma webrtc_encode_bound m h b : webrtc_encode m h = Some b -> len b <= MAX_FRAME.
+Proof.
+  unfold webrtc_encode. match goal with |- context [MAX_FRAME <? ?x] => destruct (MAX_FRAME <? x) eqn:E end; [discriminate|].
+  intros [= <-]. apply N.ltb_ge in E. exact E.
+Qed.
+
+Lemma wl_finish_bound ls p h rest r : wl_finish ls p h rest = r -> wl_reply_len r <= MAX_FRAME.
+Proof.
+  unfold wl_finish. intros <-. destruct rest; [|cbn; lia].
+  destruct (l_find ls p).
+  - destruct (webrtc_encode (MProto p) h) eqn:E; [apply (webrtc_encode_bound _ _ _ E)|cbn; lia].
+  - destruct (webrtc_encode MNa h) eqn:E; [apply (webrtc_encode_bound _ _ _ E)|cbn; lia].
+Qed.
+
+(* the reply of webrtc_listener_negotiate is an encoded message within MAX_FRAME_SIZE or the echo
+   of the received payload *)
+Lemma wl_negotiate_reply_bound names payload h :
+  wl_reply_len (wl_negotiate names payload h) <= N.max MAX_FRAME (blen payload).
+Proof.
+  unfold wl_negotiate, webrtc_listener.
+  destruct (webrtc_decode1 payload) as [[r rest]|]; [|cbn; lia].
+  destruct r as [m|e]; [|cbn; lia].
+  destruct m; try (cbn; lia).
+  - destruct h; [cbn; lia|]. destruct rest as [|y rest']; [cbn [wl_reply_len]; unfold blen; lia|].
+    destruct (webrtc_decode1 (y :: rest')) as [[r2 rest2]|]; [|cbn; lia].
+    destruct r2 as [m2|e2]; [|cbn; lia]. destruct m2; try (cbn; lia).
+    pose proof (wl_finish_bound _ _ _ _ _ eq_refl : wl_reply_len (wl_finish (tag_from 0 names) p true rest2) <= MAX_FRAME). lia.
+  - destruct h; [|cbn; lia].
+    pose proof (wl_finish_bound _ _ _ _ _ eq_refl : wl_reply_len (wl_finish (tag_from 0 names) p false rest) <= MAX_FRAME). lia.
+Qed.
+
+(* everything decode_multistream_message hands to Message::decode is a slice of the payload, so
+   what it materialises is bounded by the payload as well *)
+Lemma webrtc_decode1_alloc data m rest : webrtc_decode1 data = Some (DOk m, rest) ->
+  match m with
+  | MProtos ps => (lsum (fun p => S (length p)) ps <= length data)%nat
+  | MProto p => (length p <= length data)%nat
+  | _ => True
+  end.
+Proof.
+  intros D. destruct (webrtc_decode1_spec _ _ _ D) as (l & tail & _ & _ & E & _ & _ & S).
+  symmetry in E. pose proof (decode_msg_size _ _ E) as Z. destruct m; try exact I; lia.
+Qed.
